@@ -2,7 +2,7 @@
 
 `doSort`, `getID`, `SOJoin._applyOrderBy`, `SOMultipleJoin.performJoin`, `SORelatedJoin.performJoin/add/remove`,
 `SOSingleJoin.performJoin`, `SOSQLMultipleJoin.performJoin`, `SOManyToMany.__get__`, `_ManyToManySelectWrapper.add/
-remove/create`, `SOOneToMany.__get__`, `_OneToManySelectWrapper.create` are translated statement by statement into the
+remove/create`, `SOOneToMany.__get__` are translated statement by statement into the
 deep embedding of `lean/SqlObjVerif/Model/PyJoins.lean`.  Anything outside the fragment raises ExtractError (the
 framework then searches for a failing input and reports).  Conventions of the translation:
   * locals are numbered in order of first binding, the parameters (after `self`) first, then the targets of list
@@ -566,7 +566,7 @@ def extract(repo):
                       % (lam.name, ', '.join(lam.params), m.qual, ', '.join('%s=%d' % (v, j) for j, v in enumerate(lam.vars))),
                       'def %s_lam%d : Lam :=\n  ⟨%d, %s⟩' % (lname, i, len(lam.params), lam.body), '']
         lines += ['/-- `%s(%s)`, translated; locals: %s -/'
-                  % (m.qual, ', '.join((['self'] if m.method else []) + m.params),
+                  % (m.qual, ', '.join((['self'] if m.method else []) + [('**' + q) if q == m.kwarg else q for q in m.params]),
                      ', '.join('%s=%d' % (v, i) for i, v in enumerate(m.vars)) or '-'),
                   'def %sBody : Block :=\n  %s' % (lname, m.body),
                   'def %sProg : Prog := ⟨%sBody, [%s]⟩' % (lname, lname, ', '.join('%s_lam%d' % (lname, i) for i in range(len(m.lams)))),
